@@ -266,6 +266,7 @@ type env struct {
 	secretW watcher.Watcher // the secrets watcher all key stores are registered with
 
 	rulesDir, fileA, fileB string
+	rulesKind              string // kRules, or kRulesEnv when the provider runs with env_vars_enabled
 	ruleCur                []byte
 	ruleMarker             string
 	barrierGen             int
@@ -273,6 +274,7 @@ type env struct {
 	restoreN               int
 
 	goodToken string
+	abandon   bool // a request is still being worked on (no answer within the harness' patience): leave without a graceful stop
 	journal   *os.File
 	results   *os.File
 }
@@ -311,8 +313,11 @@ func barrierDoc(gen int) []byte {
 	return []byte(fmt.Sprintf("version: \"1alpha4\"\nname: sentinel\nrules:\n- id: sentinel\n  match: {routes: [{path: \"/sent/g%08d\"}]}\n  execute: [{authenticator: anon}, {finalizer: noop}]\n", gen))
 }
 
-func newEnv(dir string, corpus map[string][]byte) (_ *env, err error) {
-	e := &env{dir: dir, corpus: corpus, tap: newLogTap(), ks: map[string]*ksState{}}
+func newEnv(dir string, corpus map[string][]byte, envVars bool) (_ *env, err error) {
+	e := &env{dir: dir, corpus: corpus, tap: newLogTap(), ks: map[string]*ksState{}, rulesKind: kRules}
+	if envVars {
+		e.rulesKind = kRulesEnv
+	}
 	if e.srv, err = newRawServer(); err != nil {
 		return nil, err
 	}
@@ -367,7 +372,7 @@ func newEnv(dir string, corpus map[string][]byte) (_ *env, err error) {
 	S := e.srv.URL
 	e.a, err = app.New(app.Options{Service: app.SvcDecision, Logger: &logger, Fx: []fx.Option{fx.Populate(&e.secretW)}, Mutate: func(c *config.Configuration) {
 		c.SecretsReloadEnabled = true
-		c.Providers.FileSystem = map[string]any{"src": e.rulesDir, "watch": true}
+		c.Providers.FileSystem = map[string]any{"src": e.rulesDir, "watch": true, "env_vars_enabled": envVars}
 		c.Serve.Management.TLS = &config.TLS{KeyStore: config.KeyStore{Path: e.ks[kTLS].path}}
 		tp := []string{"127.0.0.1/32"}
 		c.Serve.Decision.TrustedProxies = &tp
@@ -611,6 +616,10 @@ func journalContent(b []byte) []byte {
 
 // ---- key stores -----------------------------------------------------------------------------------------
 
+// deepPatience: how long the harness waits for the answer to a request that carries (or makes heimdall fetch) a depth- or
+// size-extreme document before it moves on without a verdict.
+const deepPatience = 5 * time.Second
+
 var waits = []time.Duration{2 * time.Second, 4 * time.Second, 8 * time.Second, 8 * time.Second}
 
 // waitReload waits for heimdall's log statement about the reload attempt number n0. A missing
@@ -849,7 +858,7 @@ func (e *env) barrier(res *inResult) bool {
 		}
 		res.Nudges++
 	}
-	res.Problems = append(res.Problems, problem{Sig: "watcher-stopped:rules", What: "the process is alive but four successive writes of a fresh valid rule file (" + path + ") were never loaded by the file_system provider"})
+	res.Problems = append(res.Problems, problem{Sig: "watcher-stopped:" + e.rulesKind, What: "the process is alive but four successive writes of a fresh valid rule file (" + path + ") were never loaded by the file_system provider"})
 	return false
 }
 
@@ -895,7 +904,7 @@ func (e *env) writeRules(in *inputSpec, idx int, data []byte, stepName, marker s
 				case up:
 					res.PrevChecks++
 				default:
-					res.Problems = append(res.Problems, problem{Sig: "previous-state-lost:rules",
+					res.Problems = append(res.Problems, problem{Sig: "previous-state-lost:" + e.rulesKind,
 						What:   "the file_system provider logged a rejected rule file, but the rule set previously loaded from that file (marker " + e.ruleMarker + ") no longer matches",
 						Detail: map[string]any{"step": j.Step, "rejected_content": witness(s.after), "reject_reason": why, "previous_marker": e.ruleMarker}})
 					e.ruleMarker = ""
@@ -920,7 +929,7 @@ func (e *env) writeRules(in *inputSpec, idx int, data []byte, stepName, marker s
 				case "rule-set-shaped":
 					res.Notes = append(res.Notes, "rule-set-replaced-by-one-without-the-marker-route")
 				default:
-					res.Problems = append(res.Problems, problem{Sig: "unloaded-by-content-that-is-no-rule-set:rules",
+					res.Problems = append(res.Problems, problem{Sig: "unloaded-by-content-that-is-no-rule-set:" + e.rulesKind,
 						What:   "the rule file holds a document that is not a rule set (" + detail + "); no rejection was logged and the rule set previously loaded from that file (marker " + e.ruleMarker + ") no longer matches",
 						Detail: map[string]any{"step": j.Step, "content": witness(s.after), "content_is": detail, "previous_marker": e.ruleMarker}})
 				}
@@ -1018,6 +1027,9 @@ func (e *env) applyRules(in *inputSpec, idx int, res *inResult) bool {
 	if !e.writeRules(in, idx, data, "apply", in.meta("marker"), res) {
 		return false
 	}
+	if in.meta("expanded") == "1" && in.Class != "truncation" && e.ruleMarker == in.meta("marker") {
+		res.Expanded++ // the probed route exists only if the expression was replaced by the expected value
+	}
 	if e.ruleMarker == "" && in.Class != "truncation" {
 		e.restoreN++
 		m := fmt.Sprintf("/a/r%05d", e.restoreN)
@@ -1099,19 +1111,39 @@ func (e *env) applyTrust(in *inputSpec, idx int, res *inResult) bool {
 // ---- remote responses -----------------------------------------------------------------------------------
 
 func (e *env) driveRemote(target string) getResult {
+	return e.driveRemoteWith(e.get, target)
+}
+
+func (e *env) getPatient(path string, hdr map[string]string) getResult {
+	c := *e.httpc
+	c.Timeout = deepPatience
+	req, _ := http.NewRequest(http.MethodGet, "http://"+e.a.Addr()+path, nil)
+	for k, v := range hdr {
+		req.Header.Set(k, v)
+	}
+	resp, err := c.Do(req)
+	if err != nil {
+		return getResult{err: err}
+	}
+	_, _ = io.Copy(io.Discard, resp.Body)
+	_ = resp.Body.Close()
+	return getResult{status: resp.StatusCode, header: resp.Header}
+}
+
+func (e *env) driveRemoteWith(get func(string, map[string]string) getResult, target string) getResult {
 	switch target {
 	case "jwks":
-		return e.get("/jwt/x", map[string]string{"Authorization": "Bearer " + e.goodToken})
+		return get("/jwt/x", map[string]string{"Authorization": "Bearer " + e.goodToken})
 	case "metadata":
-		return e.get("/jwtmd/x", map[string]string{"Authorization": "Bearer " + e.goodToken})
+		return get("/jwtmd/x", map[string]string{"Authorization": "Bearer " + e.goodToken})
 	case "introspect":
-		return e.get("/intro/x", map[string]string{"Authorization": "Bearer opaque-token"})
+		return get("/intro/x", map[string]string{"Authorization": "Bearer opaque-token"})
 	case "identity":
-		return e.get("/gen/x", map[string]string{"X-Session": "session-1"})
+		return get("/gen/x", map[string]string{"X-Session": "session-1"})
 	case "authz":
-		return e.get("/hs/x", nil)
+		return get("/hs/x", nil)
 	default:
-		return e.get("/ctx/x", nil)
+		return get("/ctx/x", nil)
 	}
 }
 
@@ -1122,16 +1154,31 @@ func (e *env) applyRemote(in *inputSpec, idx int, res *inResult) bool {
 		body := append(append([]byte(`{"pad":"`), bytes.Repeat([]byte("p"), mb<<20)...), []byte(`","active":true,"sub":"u1","keys":[]}`)...)
 		raw = httpResp(200, "application/json", body)
 	}
-	e.journalW(jEntry{Seq: in.Seq, Index: idx, Kind: in.Kind, Step: "apply"})
+	note := ""
+	if in.meta("deep") != "" {
+		var doc []byte
+		doc, note = deepRemoteDoc(in, e.srv.URL)
+		raw = httpResp(200, "application/json", doc)
+		res.Deep++
+	}
+	e.journalW(jEntry{Seq: in.Seq, Index: idx, Kind: in.Kind, Step: "apply", Note: note})
 	e.srv.set(target, script{raw: raw, mode: in.meta("close")})
 	h0 := e.srv.hitCount(target)
-	r := e.driveRemote(target)
-	if r.err != nil {
+	var r getResult
+	if in.meta("deep") != "" {
+		r = e.driveRemoteWith(e.getPatient, target)
+	} else if r = e.driveRemote(target); r.err != nil {
 		r = e.driveRemote(target) // once more: the same scripted answer, a fresh connection
 	}
 	res.Hit = e.srv.hitCount(target) > h0
 	res.Observed = res.Hit
 	e.srv.reset(target)
+	if r.err != nil && in.meta("deep") != "" {
+		// no verdict about the time heimdall takes for a huge document (see applyRequest)
+		res.Notes = append(res.Notes, "deep-not-answered:"+in.group()+" "+trunc(r.err.Error(), 80))
+		e.abandon = true
+		return false
+	}
 	if r.err != nil {
 		res.Problems = append(res.Problems, problem{Sig: "no-error-response", What: "heimdall did not answer a request (twice) while the remote " + target + " endpoint sent a malformed response: " + r.err.Error(),
 			Detail: map[string]any{"remote_response": witness(raw), "close": in.meta("close")}})
@@ -1178,6 +1225,11 @@ func (e *env) ensureGRPC() error {
 
 // sendRaw writes bytes to a port and returns the parsed HTTP response, if one came back.
 func sendRaw(addr string, useTLS bool, data []byte, full bool) (status int, got int, err error) {
+	return sendRawWait(addr, useTLS, data, full, 10*time.Second)
+}
+
+// sendRawWait: wait is the time the complete response may take (full) after the request was written.
+func sendRawWait(addr string, useTLS bool, data []byte, full bool, wait time.Duration) (status int, got int, err error) {
 	d := &net.Dialer{Timeout: 3 * time.Second}
 	var c net.Conn
 	if useTLS {
@@ -1189,10 +1241,10 @@ func sendRaw(addr string, useTLS bool, data []byte, full bool) (status int, got 
 		return 0, 0, err
 	}
 	defer c.Close()
-	_ = c.SetWriteDeadline(time.Now().Add(5 * time.Second))
+	_ = c.SetWriteDeadline(time.Now().Add(5*time.Second + wait/2))
 	_, _ = c.Write(data)
 	if full {
-		_ = c.SetReadDeadline(time.Now().Add(10 * time.Second))
+		_ = c.SetReadDeadline(time.Now().Add(wait))
 		resp, err := http.ReadResponse(bufio.NewReader(c), nil)
 		if err != nil {
 			return 0, 0, err
@@ -1217,7 +1269,14 @@ func sendRaw(addr string, useTLS bool, data []byte, full bool) (status int, got 
 
 func (e *env) applyRequest(in *inputSpec, idx int, res *inResult) bool {
 	port, expect := in.meta("port"), in.meta("expect")
-	e.journalW(jEntry{Seq: in.Seq, Index: idx, Kind: in.Kind, Step: "apply"})
+	note := ""
+	if in.meta("deep") != "" {
+		// generated here from the recipe in the input's meta data (batch files stay small); the journal names the recipe
+		in.Data, note = deepRequest(in, e.goodToken)
+		defer func() { in.Data = nil }()
+		res.Deep++
+	}
+	e.journalW(jEntry{Seq: in.Seq, Index: idx, Kind: in.Kind, Step: "apply", Note: note})
 	res.Observed = true
 	switch port {
 	case "envoy", "grpc":
@@ -1257,13 +1316,24 @@ func (e *env) applyRequest(in *inputSpec, idx int, res *inResult) bool {
 	case "mgmt-http":
 		addr, useTLS = fmt.Sprintf("127.0.0.1:%d", e.a.MgmtPort), true
 	}
-	full := expect == "error" || expect == "ok"
-	status, _, err := sendRaw(addr, useTLS, in.Data, full)
-	if full && err != nil {
+	deep := in.meta("deep") != ""
+	full := expect == "error" || expect == "ok" || deep
+	wait := 10 * time.Second
+	if deep {
+		wait = deepPatience
+	}
+	status, _, err := sendRawWait(addr, useTLS, in.Data, full, wait)
+	if full && err != nil && !deep {
 		status, _, err = sendRaw(addr, useTLS, in.Data, full)
 	}
 	res.Status = status
 	switch {
+	case deep && err != nil:
+		// How long heimdall may take for a 10 MB document is not part of the statement, and a server side timeout closes the
+		// connection without a response: no verdict. The process goes on working on the request; the next input gets a fresh one.
+		res.Notes = append(res.Notes, "deep-not-answered:"+in.group()+" "+trunc(err.Error(), 80))
+		e.abandon = true
+		return false
 	case expect == "error" && err != nil:
 		res.Problems = append(res.Problems, problem{Sig: "no-error-response", What: "a well-formed HTTP request with malformed credentials got no HTTP response (twice): " + err.Error(),
 			Detail: map[string]any{"request": witness(in.Data)}})
@@ -1294,7 +1364,9 @@ func (e *env) applyRequest(in *inputSpec, idx int, res *inResult) bool {
 // ---- child main ----------------------------------------------------------------------------------------------
 
 func c19Child() {
-	debug.SetMaxStack(128 << 20) // an unbounded recursion ends the process after 128 MB instead of 1 GB of stack
+	if core.ChildArg("STACK") != "default" {
+		debug.SetMaxStack(128 << 20) // an unbounded recursion ends the process after 128 MB instead of 1 GB of stack
+	}
 	dir := core.ChildArg("DIR")
 	fail := func(msg string) {
 		fmt.Println("C19-CHILD-SETUP-FAILED:", msg)
@@ -1318,7 +1390,13 @@ func c19Child() {
 			skip[s] = true
 		}
 	}
-	e, err := newEnv(dir, corpus)
+	envLane := start < len(batch) && batch[start].Kind == kRulesEnv
+	if envLane {
+		for k, v := range envLaneVars() {
+			_ = os.Setenv(k, v)
+		}
+	}
+	e, err := newEnv(dir, corpus, envLane)
 	if err != nil {
 		fail(err.Error())
 	}
@@ -1340,7 +1418,7 @@ func c19Child() {
 			switch in.Kind {
 			case kSigner, kTLS, kHTTPSig:
 				goOn = e.applyKS(in, i, &res)
-			case kRules:
+			case kRules, kRulesEnv:
 				goOn = e.applyRules(in, i, &res)
 			case kTrust:
 				goOn = e.applyTrust(in, i, &res)
@@ -1366,6 +1444,10 @@ func c19Child() {
 	}
 	mb, _ := json.Marshal(doneMarker{Next: next, Reason: reason})
 	_ = os.WriteFile(filepath.Join(dir, "done.json"), mb, 0o644)
+	if e.abandon {
+		fmt.Println("C19-CHILD-DONE")
+		os.Exit(0)
+	}
 	e.stop()
 	fmt.Println("C19-CHILD-DONE")
 }
